@@ -50,7 +50,7 @@ impl<B: Buffer> Editor<B> {
 //@ /// representation invariant: additionally the cursor is inside the line
 //@ pub open spec fn wf(&self) -> bool { self.wf_mem() && self.cur() <= self.line().len() }
     pub fn new(buffer: B) -> Self {
-//@ ensures r.wf(), r.line() == Seq::<char>::empty(), r.line_bytes() == Seq::<u8>::empty(), r.cur() == 0, r.cap() == buffer.bytes().len(),   // [C05,C01]
+//@ ensures r.wf(), r.line() == Seq::<char>::empty(), r.line_bytes() == Seq::<u8>::empty(), r.cur() == 0, r.cap() == buffer.bytes().len(),   // [C05,C01,C06]
 //@ ---
 //@ proof { assert(buffer.bytes().subrange(0, 0) =~= Seq::<u8>::empty()); }
         Self {
@@ -230,7 +230,7 @@ impl<B: Buffer> Editor<B> {
     pub fn clear(&mut self) {
 //@ requires old(self).wf_mem(),
 //@ ensures final(self).wf(), final(self).line() == Seq::<char>::empty(), final(self).line_bytes() == Seq::<u8>::empty(),
-//@     final(self).cur() == 0, final(self).cap() == old(self).cap(),   // [C05,C01]
+//@     final(self).cur() == 0, final(self).cap() == old(self).cap(),   // [C05,C01,C06]
         self.valid = 0;
         self.cursor = 0;
 //@ proof { assert(self.buffer.bytes().subrange(0, 0) =~= Seq::<u8>::empty()); }
@@ -247,15 +247,15 @@ impl<B: Buffer> Editor<B> {
 //@ ensures
 //@     final(self).wf(), final(self).cap() == old(self).cap(),
 //@     // C05: accepted if and only if the line's UTF-8 length stays within the command buffer
-//@     (r is Some) == (old(self).line_bytes().len() + text.spec_bytes().len() <= old(self).cap()),   // [C05,C01]
+//@     (r is Some) == (old(self).line_bytes().len() + text.spec_bytes().len() <= old(self).cap()),   // [C05,C01,C06]
 //@     // C05: a rejected insertion changes nothing
-//@     r is None ==> final(self).line_bytes() == old(self).line_bytes() && final(self).cur() == old(self).cur(),   // [C05,C01]
+//@     r is None ==> final(self).line_bytes() == old(self).line_bytes() && final(self).cur() == old(self).cur(),   // [C05,C01,C06]
 //@     // C05: the text goes in at the cursor, whatever the byte lengths of the characters involved
 //@     r is Some ==> ({
 //@         let c = old(self).cur() as int; let l = old(self).line();
 //@         &&& final(self).line() == l.subrange(0, c) + text@ + l.subrange(c, l.len() as int)
 //@         &&& final(self).cur() == c + text@.len()
-//@         &&& r.unwrap()@ == text@ }),   // [C05,C17,C01]
+//@         &&& r.unwrap()@ == text@ }),   // [C05,C17,C01,C06]
 //@ ---
 //@ proof { broadcast use axiom_str_len_bound; broadcast use lemma_str_view_bytes; }
         let remaining = self.buffer.len() - self.valid;
@@ -269,7 +269,7 @@ impl<B: Buffer> Editor<B> {
 //@ let ghost old_bytes = self.line_bytes();
 //@ let ghost l = self.line();
 //@ let ghost c = self.cursor as int;
-//@ proof {   // [C05,C01]
+//@ proof {   // [C05,C01,C06]
 //@     lemma_split_at_char(old_bytes, c);
 //@ }
 //@ let ghost b0 = self.buffer.bytes();
@@ -284,7 +284,7 @@ impl<B: Buffer> Editor<B> {
             self.valid
         };
 //@ let ghost b1 = self.buffer.bytes();
-//@ proof {   // [C05,C01]
+//@ proof {   // [C05,C01,C06]
 //@     assert(cursor == off);
 //@     assert(b1.len() == b0.len());
 //@     assert(forall|i: int| 0 <= i < off ==> b1[i] == b0[i]);
@@ -296,7 +296,7 @@ impl<B: Buffer> Editor<B> {
             utils::copy_nonoverlapping(text, &mut self.buffer.as_slice_mut()[cursor..], text.len());
         }
 //@ let ghost b2 = self.buffer.bytes();
-//@ proof {   // [C05,C01]
+//@ proof {   // [C05,C01,C06]
 //@     assert(b2.len() == b0.len());
 //@     assert(forall|i: int| 0 <= i < off ==> b2[i] == b0[i]);
 //@     assert(forall|i: int| off <= i < off + tl ==> b2[i] == text@[i - off]);
@@ -310,7 +310,7 @@ impl<B: Buffer> Editor<B> {
 //@ proof { assert(text@ =~= tb); }
         self.cursor += chars;
         self.valid += text.len();
-//@ proof {   // [C05,C01]
+//@ proof {   // [C05,C01,C06]
 //@     assert(self.line_bytes() =~= old_bytes.subrange(0, off) + tb + old_bytes.subrange(off, old_bytes.len() as int));
 //@ }
         //SAFETY: we just copied valid utf-8 from &str to this location
@@ -319,7 +319,7 @@ impl<B: Buffer> Editor<B> {
 
     pub fn len(&self) -> usize {
 //@ requires self.wf_mem(),
-//@ ensures r == self.line().len(),   // [C05,C01]
+//@ ensures r == self.line().len(),   // [C05,C01,C06]
         utils::char_count(self.text())
     }
 
@@ -327,7 +327,7 @@ impl<B: Buffer> Editor<B> {
 //@ requires old(self).wf(),
 //@ ensures final(self).wf(), final(self).line_bytes() == old(self).line_bytes(), final(self).cap() == old(self).cap(),
 //@     // C05: Left moves by one whole character and stops at the start
-//@     r == (old(self).cur() > 0), final(self).cur() == (if old(self).cur() > 0 { old(self).cur() - 1 } else { 0 }) as nat,   // [C05,C01]
+//@     r == (old(self).cur() > 0), final(self).cur() == (if old(self).cur() > 0 { old(self).cur() - 1 } else { 0 }) as nat,   // [C05,C01,C06]
         if self.cursor > 0 {
             self.cursor -= 1;
             true
@@ -341,7 +341,7 @@ impl<B: Buffer> Editor<B> {
 //@ ensures final(self).wf(), final(self).line_bytes() == old(self).line_bytes(), final(self).cap() == old(self).cap(),
 //@     // C05: Right moves by one whole character and stops at the end
 //@     r == (old(self).cur() < old(self).line().len()),
-//@     final(self).cur() == (if old(self).cur() < old(self).line().len() { old(self).cur() + 1 } else { old(self).cur() }),   // [C05,C01]
+//@     final(self).cur() == (if old(self).cur() < old(self).line().len() { old(self).cur() + 1 } else { old(self).cur() }),   // [C05,C01,C06]
         if self.cursor < self.len() {
             self.cursor += 1;
             true
@@ -356,12 +356,12 @@ impl<B: Buffer> Editor<B> {
 //@ requires old(self).wf(),
 //@ ensures final(self).wf(), final(self).cap() == old(self).cap(), final(self).cur() == old(self).cur(),
 //@     // C05: the character at the cursor is removed, whatever its byte length; at the end nothing happens
-//@     final(self).line() == (if old(self).cur() < old(self).line().len() { old(self).line().remove(old(self).cur() as int) } else { old(self).line() }),   // [C05,C17,C01]
+//@     final(self).line() == (if old(self).cur() < old(self).line().len() { old(self).line().remove(old(self).cur() as int) } else { old(self).line() }),   // [C05,C17,C01,C06]
 //@ ---
 //@ let ghost bytes0 = self.line_bytes();
 //@ let ghost l = self.line();
 //@ let ghost c = self.cursor as int;
-//@ proof {   // [C05,C01]
+//@ proof {   // [C05,C01,C06]
 //@     broadcast use lemma_str_view_bytes;
 //@     lemma_split_at_char(bytes0, c);
 //@     if c < l.len() { lemma_remove_valid(bytes0, c); lemma_byte_off_step(l, c); lemma_split_at_char(bytes0, c + 1); }
@@ -373,7 +373,7 @@ impl<B: Buffer> Editor<B> {
 //@     is_char_boundary_start_end_of_seq(bytes0);
 //@ }
             let text = unsafe { self.text().get_unchecked(cursor_pos..) };
-//@ proof {   // [C05,C01]
+//@ proof {   // [C05,C01,C06]
 //@     assert(text.spec_bytes() == bytes0.subrange(cursor_pos as int, bytes0.len() as int));
 //@     encode_utf8_decode_utf8(l.subrange(c, l.len() as int));
 //@     assert(text@ == l.subrange(c, l.len() as int));
@@ -385,14 +385,14 @@ impl<B: Buffer> Editor<B> {
 
         match (cursor_pos, next_pos) {
             (Some(cursor), None) => {
-//@ proof {   // [C05,C01]
+//@ proof {   // [C05,C01,C06]
 //@     assert(c == l.len() - 1);
 //@     lemma_truncate_valid(bytes0, c);
 //@     assert(l.remove(c) =~= l.subrange(0, c));
 //@ }
                 // we are at the last char, so just decrease valid size
                 self.valid = cursor;
-//@ proof { assert(self.line_bytes() =~= bytes0.subrange(0, cursor as int)); }   // [C05,C01]
+//@ proof { assert(self.line_bytes() =~= bytes0.subrange(0, cursor as int)); }   // [C05,C01,C06]
             }
             (Some(cursor), Some(next)) => {
 //@ let ghost b0 = self.buffer.bytes();
@@ -400,7 +400,7 @@ impl<B: Buffer> Editor<B> {
                     .as_slice_mut()
                     .copy_within(next..self.valid, cursor);
                 self.valid -= next - cursor;
-//@ proof {   // [C05,C01]
+//@ proof {   // [C05,C01,C06]
 //@     assert(self.line_bytes() =~= bytes0.subrange(0, cursor as int) + bytes0.subrange(next as int, bytes0.len() as int));
 //@ }
             }
@@ -410,7 +410,7 @@ impl<B: Buffer> Editor<B> {
 
     pub fn text(&self) -> &str {
 //@ requires self.wf_mem(),
-//@ ensures r@ == self.line(), r.spec_bytes() == self.line_bytes(),   // [C05,C01]
+//@ ensures r@ == self.line(), r.spec_bytes() == self.line_bytes(),   // [C05,C01,C06]
         // SAFETY: buffer stores only valid utf-8 bytes 0..valid range
         unsafe {
             core::str::from_utf8_unchecked(self.buffer.as_slice().get_unchecked(..self.valid))
@@ -437,7 +437,7 @@ impl<B: Buffer> Editor<B> {
     #[allow(dead_code)]
     pub fn text_range(&self, range: core::ops::RangeFrom<usize>) -> &str {
 //@ requires self.wf_mem(),
-//@ ensures r@ == (if range.start < self.line().len() { self.line().subrange(range.start as int, self.line().len() as int) } else { Seq::<char>::empty() }),   // [C05,C11]
+//@ ensures r@ == (if range.start < self.line().len() { self.line().subrange(range.start as int, self.line().len() as int) } else { Seq::<char>::empty() }),   // [C05,C11,C06]
 //@ ---
 //@ proof {
 //@     broadcast use axiom_str_len_bound; broadcast use lemma_str_view_bytes; reveal_strlit("");
